@@ -12,6 +12,7 @@ from fractions import Fraction
 
 import numpy as np
 
+from .common import as_ufunc_global
 from .common import (EXPONENTS, PREFIX, And, Case, Iff, Not, Or, band, call, check_names, close, dims_catalogue, elements,
                      exact_eq, ite, payload, vabs)
 from symx.core import SymReal
@@ -648,7 +649,8 @@ def do_divmod(ctx, A, Bq, out=None):
             return np.divmod(A, Bq)
         return np.divmod(A, Bq, out=out)
     kw = {} if out is None else dict(out=out)
-    return A.__array_ufunc__(_OBJ_DIVMOD, "__call__", A, Bq, **kw)
+    with as_ufunc_global(ctx.mods, _OBJ_DIVMOD):
+        return A.__array_ufunc__(_OBJ_DIVMOD, "__call__", A, Bq, **kw)
 
 
 def make_divmod_case(form, spec0, spec1, tag="", same_object=False):
